@@ -96,6 +96,23 @@ def check(run: Run) -> None:
                         f"{k} content is dropped by this converter")
                 run.violation("R14.1", m, qual, f"no branch for {k}", f"{qual} has no branch for {k}: {what}", line=fi.node.lineno)
 
+    # converters discovered by shape: any function reachable from the eject entry points that walks .children / .sections and
+    # dispatches on node classes is a converter too (catches helpers added next to the listed ones)
+    listed = {(run.project.mod(mn).name, q) for mn, q, _ in CONVERTERS}
+    roots = ["octave_mcp.mcp.eject:EjectTool.execute", "octave_mcp.cli.main:eject"]
+    for fq in sorted(res.reachable_from(roots)):
+        fi = res.func_by_fqn(fq)
+        if not (fi.module.name.endswith("mcp.eject") or fi.module.name.endswith("cli.main")) or (fi.module.name, fi.qualname) in listed:
+            continue
+        walks = [n for n in walk_no_nested(fi.node) if isinstance(n, (ast.For, ast.comprehension)) and isinstance(n.iter, ast.Attribute) and n.iter.attr in ("children", "sections")]
+        cl = isinstance_classes(fi)
+        if walks and cl & {"Assignment", "Block", "Section"}:
+            for k in CONTENT_NODE_KINDS:
+                ok = k in cl
+                run.instance("R14.1", fi.module.loc(fi.node), f"{fi.qualname} (converter by shape): branch for {k}", ok=ok)
+                if not ok:
+                    run.violation("R14.1", fi.module, fi.qualname, f"no branch for {k}", f"{fi.qualname} walks child nodes for an output format but has no branch for {k}: that content is dropped from the rendering while the projection reports lossy=false", line=fi.node.lineno)
+
     # ---------------------------------------------------------------- R14.4
     for a, b in SIBLINGS:
         ca, cb = classes[a], classes[b]
